@@ -368,6 +368,9 @@ def run(ctx):  # noqa: C901, PLR0912, PLR0915
                f'and use from their own send threads: a retransmission can be answered from what another thread stored '
                f'(another node\'s datagram goes out instead, this message is sent once less)', fi=fi_)
     ctx.borrow('C13', {'C13.R2'}, 'C15.R3', contains=['whole envelope'], why='a header that is echoed into an answer is schema-valid, or the send thread dies validating its own datagram')
+    from . import common as common_
+    common_.log_handlers_never_raise(ctx, 'C15.R3')
+    common_.discovery_reader_validates(ctx, 'C15.R3')
     # a stopped node can be started again: _stop_threads forgets the joined networking thread, because _start_threads
     # creates a new one only when there is none - a kept (dead) thread drops every message in _repeated_enqueue_msg
     W = 'sdc11073.wsdiscovery.wsdimpl.WSDiscovery'
